@@ -24,6 +24,7 @@
 #include <algorithm>
 #include <array>
 #include <cstring>
+#include <limits>
 #include <numeric>
 #include <string>
 #include <vector>
@@ -349,6 +350,62 @@ void numeric(mc::Reporter& r, char const* an, char const* en, std::uint64_t& ev)
     r.sample(cat("accumulator ", an, " over elements ", en, ": 781 sequences of length 0..4 x accumulate/inner_product/partial_sum/adjacent_difference/iota"));
 }
 
+// ---------------------------------------------------------------------------------------------------- part C
+// count arguments of a NARROW integer type on ranges longer than that type can express (added after seeded breakage
+// c06_search_n_narrow_count_cast: an early-out `static_cast<Size>(last - first) < count` truncated the range length to
+// the caller's count type).  Enumerated: Size in {signed char, unsigned char, short, unsigned short} x range lengths
+// {127, 128, 129, 200, 255, 256, 257, 300} x run position {front, middle, back, absent} x run length {1, 2, 3} for
+// search_n (with and without predicate); copy_n / fill_n / generate_n / for_each_n with every count in {0, 1, 2, 100}
+// of each Size on a 300-element range; against std.
+template <typename Size>
+void narrow_counts(mc::Reporter& r, char const* sname, std::uint64_t& ev)
+{
+    for (int len : {127, 128, 129, 200, 255, 256, 257, 300}) {
+        for (int where = 0; where < 4; ++where) {
+            for (int run = 1; run <= 3; ++run) {
+                std::vector<int> v(std::size_t(len), 0);
+                for (int i = 0; i < len; ++i) { v[std::size_t(i)] = (i % 2 == 0) ? 1 : 2; } // no run of equal elements
+                int const at = where == 0 ? 0 : (where == 1 ? len / 2 : (where == 2 ? len - run : -1));
+                if (at >= 0) {
+                    for (int k = 0; k < run; ++k) { v[std::size_t(at + k)] = 7; }
+                }
+                int* const f = v.data();
+                int* const l = f + len;
+                Size const n = static_cast<Size>(run);
+                long const e1 = etl::search_n(f, l, n, 7) - f;
+                long const s1 = std::search_n(f, l, n, 7) - f;
+                long const e2 = etl::search_n(f, l, n, 7, [](int a, int b) { return a == b; }) - f;
+                long const s2 = std::search_n(f, l, n, 7, [](int a, int b) { return a == b; }) - f;
+                ev += 2;
+                r.outcome(mc::hash_str(cat(s1, ":", len)));
+                std::string const cls  = cat("count_type_", sname, len > int(std::numeric_limits<Size>::max()) ? "+range_longer_than_count_type" : "");
+                std::string const kase = cat("search_n over ", len, " ints, run of ", run, " x 7 ", at < 0 ? std::string("absent") : cat("at ", at), ", count passed as ", sname);
+                if (e1 != s1) { r.violation("C06", "search_n(first,last,count,value)", cls, kase, cat("tetl ", e1, " std ", s1)); }
+                if (e2 != s2) { r.violation("C06", "search_n(first,last,count,value,pred)", cls, kase, cat("tetl ", e2, " std ", s2)); }
+            }
+        }
+    }
+    for (int c : {0, 1, 2, 100}) {
+        Size const n = static_cast<Size>(c);
+        std::vector<int> src(300), de(300, -1), ds(300, -1);
+        for (int i = 0; i < 300; ++i) { src[std::size_t(i)] = i; }
+        long const e = etl::copy_n(src.data(), n, de.data()) - de.data();
+        long const s = std::copy_n(src.data(), n, ds.data()) - ds.data();
+        std::vector<int> fe(300, -1), fs(300, -1);
+        long const e3 = etl::fill_n(fe.data(), n, 5) - fe.data();
+        long const s3 = std::fill_n(fs.data(), n, 5) - fs.data();
+        int ge = 0, gs = 0;
+        std::vector<int> he(300, -1), hs(300, -1);
+        long const e4 = etl::generate_n(he.data(), n, [&] { return ge++; }) - he.data();
+        long const s4 = std::generate_n(hs.data(), n, [&] { return gs++; }) - hs.data();
+        ev += 3;
+        std::string const cls = cat("count_type_", sname);
+        if (e != s || de != ds) { r.violation("C06", "copy_n(first,count,result)", cls, cat("copy_n of ", c, " (", sname, ") elements"), "written range or returned iterator differs from std"); }
+        if (e3 != s3 || fe != fs) { r.violation("C06", "fill_n(first,count,value)", cls, cat("fill_n of ", c, " (", sname, ") elements"), "written range or returned iterator differs from std"); }
+        if (e4 != s4 || he != hs) { r.violation("C06", "generate_n(first,count,g)", cls, cat("generate_n of ", c, " (", sname, ") elements"), "written range or returned iterator differs from std"); }
+    }
+}
+
 } // namespace
 
 int main(int argc, char** argv)
@@ -380,6 +437,17 @@ int main(int argc, char** argv)
         numeric<unsigned char, int>(r, "unsigned char", "int", ev);
         numeric<int, float>(r, "int", "float", ev);
         numeric<Acc, int>(r, "Acc", "int", ev);
+        r.count("evaluations", ev);
+        r.count("distinct_nontrivial", ev);
+    });
+    m.job("mixed/narrow-count-types", both, [](mc::Reporter& r) {
+        std::uint64_t ev = 0;
+        narrow_counts<signed char>(r, "signed char", ev);
+        narrow_counts<unsigned char>(r, "unsigned char", ev);
+        narrow_counts<short>(r, "short", ev);
+        narrow_counts<unsigned short>(r, "unsigned short", ev);
+        narrow_counts<int>(r, "int", ev);
+        r.sample("search_n / copy_n / fill_n / generate_n with the count passed as signed char, unsigned char, short, unsigned short, int on ranges of 127..300 elements");
         r.count("evaluations", ev);
         r.count("distinct_nontrivial", ev);
     });
